@@ -80,3 +80,84 @@ theorem pressLoop_ge_hydrostatic (p0 P0 dlt : Rat) (hd : 0 ≤ dlt) (k t j : Nat
 #print axioms pressLoop_antitone
 #print axioms pressLoop_ge_hydrostatic
 end GeoVerif
+
+namespace GeoVerif
+
+theorem clamp0_nonneg (x : Rat) : 0 ≤ clamp0 x := by
+  unfold clamp0; split
+  · exact le_refl _
+  · rename_i h; exact not_lt.mp h
+
+theorem clamp0_of_nonneg (x : Rat) (h : 0 ≤ x) : clamp0 x = x := by
+  unfold clamp0; rw [if_neg (not_lt.mpr h)]
+
+theorem pumpSide_nonneg (dp : List Rat) (coef : Rat) : ∀ x ∈ pumpSide dp coef, 0 ≤ x := by
+  intro x hx
+  simp only [pumpSide, List.mem_map] at hx
+  obtain ⟨d, _, rfl⟩ := hx
+  exact clamp0_nonneg _
+
+theorem pumpTotal_nonneg (b : Bool) (inj prod : List Rat) : ∀ x ∈ pumpTotal b inj prod, 0 ≤ x := by
+  intro x hx
+  simp only [pumpTotal, List.mem_map] at hx
+  obtain ⟨t, _, rfl⟩ := hx
+  exact clamp0_nonneg _
+
+theorem pumpTotal_sum (inj prod : List Rat) (t : Nat) (ht : t < inj.length)
+    (hi : 0 ≤ inj.getD t 0) (hp : 0 ≤ prod.getD t 0) :
+    (pumpTotal true inj prod).getD t 0 = inj.getD t 0 + prod.getD t 0 := by
+  simp only [pumpTotal, List.getD_eq_getElem?_getD, List.getElem?_map, List.getElem?_range ht, Option.map_some,
+    Option.getD_some, if_true]
+  rw [clamp0_of_nonneg]
+  have h1 := hi; have h2 := hp
+  simp only [List.getD_eq_getElem?_getD] at h1 h2
+  linarith
+
+theorem injPressure_length (L n : Nat) (p0 rate : Rat) : (injPressure L n p0 rate).length = L * n := by
+  unfold injPressure; split <;> simp
+
+theorem injPressure_closed (L n : Nat) (p0 rate : Rat) (t : Nat) (ht : t < L * n) :
+    (injPressure L n p0 rate).getD t 0 = p0 + rate / (n : Rat) * (t : Rat) := by
+  unfold injPressure
+  split
+  · rename_i h
+    simp [List.getD_eq_getElem?_getD, List.getElem?_replicate, ht, h]
+  · simp only [List.getD_eq_getElem?_getD, List.getElem?_map, List.getElem?_range ht, Option.map_some, Option.getD_some]
+    split
+    · rename_i h0; subst h0; simp
+    · rfl
+
+theorem injPressure_mono (L n : Nat) (p0 rate : Rat) (hr : 0 ≤ rate) (i j : Nat) (hij : i ≤ j) (hj : j < L * n) :
+    (injPressure L n p0 rate).getD i 0 ≤ (injPressure L n p0 rate).getD j 0 := by
+  rw [injPressure_closed L n p0 rate i (lt_of_le_of_lt hij hj), injPressure_closed L n p0 rate j hj]
+  have h1 : (0:Rat) ≤ rate / (n : Rat) := div_nonneg hr (by positivity)
+  have h2 : (i : Rat) ≤ (j : Rat) := by exact_mod_cast hij
+  nlinarith
+
+/-- the reservoir-pressure predictor for an overpressure above 100 %: first value, closed form incl. the `break`,
+monotone decline, never below hydrostatic -/
+theorem resPressure_start (L n : Nat) (p0 pct rate : Rat) (hp : pct ≠ 100) (hL : 0 < L * n) :
+    (resPressure L n p0 pct rate).getD 0 0 = p0 * (pct / 100) := by
+  unfold resPressure
+  simp only [hp, if_false]
+  obtain ⟨m, hm⟩ : ∃ m, L * n = m + 1 := ⟨L * n - 1, by omega⟩
+  simp [hm]
+
+theorem resPressure_flat (L n : Nat) (p0 rate : Rat) (t : Nat) (ht : t < L * n) :
+    (resPressure L n p0 100 rate).getD t 0 = p0 := by
+  unfold resPressure
+  simp [List.getD_eq_getElem?_getD, List.getElem?_replicate, ht]
+
+theorem resPressure_closed (L n : Nat) (p0 pct rate : Rat) (hp : pct ≠ 100)
+    (hd : 0 ≤ (p0 * (pct / 100) - p0) / ((((100 / rate) * (n : Rat)).floor : Int) : Rat)) (t : Nat) (ht : t + 1 < L * n) :
+    (resPressure L n p0 pct rate).getD (t + 1) 0 =
+      max p0 (p0 * (pct / 100) - (p0 * (pct / 100) - p0) / ((((100 / rate) * (n : Rat)).floor : Int) : Rat) * ((t + 1 : Nat) : Rat)) := by
+  unfold resPressure
+  simp only [hp, if_false]
+  obtain ⟨m, hm⟩ : ∃ m, L * n = m + 1 := ⟨L * n - 1, by omega⟩
+  rw [hm] at ht
+  simp only [hm, List.getD_cons_succ]
+  have := (pressLoop_closed p0 (p0 * (pct / 100)) _ hd m 1 t (by omega)).1
+  rw [this, show (1 + t : Nat) = t + 1 by omega]
+
+end GeoVerif
